@@ -9,3 +9,21 @@ def run(cx):
     for n in ('SM9_U256_MONT_G2', 'G1', 'G2', 'SM9_POINT_MONT_P1', 'SM9_TWIST_POINT_MONT_P2'):
         K.k_struct(cx, 'K-SM9-GEN', 'gm_sm9', n, s.struct_consts[n])
     K.k_table(cx, 'K-SM9-TABLE', 'gm_sm9', 'SM9_P256_PRECOMPUTED', s.table(), 'fixed-base table [w][2(j-1)..] = mont(affine(j*2^(7w)*P1))')
+
+
+_run0 = run
+
+
+def run(cx):
+    from .. import rules_s as S, rules_d as D
+    _run0(cx)
+    for q, t in (('gm_sm9::points::<impl points::Point>::point_add', 'Point::Point'), ('gm_sm9::points::<impl points::TwistPoint>::point_add', 'TwistPoint::TwistPoint'),
+                 ('gm_sm9::points::twist_point_add_full', 'TwistPoint::TwistPoint')):
+        fn = cx.fn(q, 'S-JADD')
+        if fn is not None:
+            S.s_jadd(cx, 'S-JADD', fn, t)
+    for q in ('gm_sm9::points::<impl points::Point>::point_equals', 'gm_sm9::points::<impl points::TwistPoint>::point_equals'):
+        fn = cx.fn(q, 'S-PTEQ')
+        if fn is not None:
+            S.s_pteq(cx, 'S-PTEQ', fn)
+    D.d_deadpure(cx, 'D-DEADPURE', ('gm_sm9',), floor_calls=500)
